@@ -340,6 +340,16 @@ class Client(BaseClient):
         """
         self.control_connection_handler.send_message(msg)
 
+    def process_blob_message(self, msg: IndiMessage):
+        """Handles a message received on the blob connection.
+
+        Until the server has processed the `Only` request, the blob connection carries
+        the same ordinary traffic as the control connection, possibly later; only BLOB
+        updates are taken from it, everything else is the control connection's business.
+        """
+        if isinstance(msg, message.SetBLOBVector):
+            self.process_message(msg)
+
     def blob_handshake(self, device):
         super().blob_handshake(device)
         self.blob_connection_handler.send_message(
@@ -355,7 +365,7 @@ class Client(BaseClient):
             self.process_message
         )
         self.blob_connection_handler = await self.blob_connection.connect(
-            self.process_message, for_blobs=True
+            self.process_blob_message, for_blobs=True
         )
 
         asyncio.get_running_loop().create_task(
